@@ -733,6 +733,7 @@ def globBudget (ed : Ed) : Nat := 4 * (ed.len.toNat + 4) * (ed.len.toNat + 4) + 
 /-- `ec_glob` in terms of the pieces above -/
 theorem ecGlob_eq (f : Nat) (ed : Ed) (loc cmd arg : Bytes) :
     ecGlob (f + 1) ed loc cmd arg =
+      if ed.xgdep ≥ 7 then some ((1 : Int), ed.show (strOf "global commands nested too deep")) else
       match exRegion ed (if loc.isEmpty && ed.xgdep == 0 then [37] else loc) with
       | none => none
       | some ((rc, b, e), ed) =>
@@ -761,6 +762,9 @@ theorem ecGlob_kept (f : Nat) (ed ed' : Ed) (loc cmd arg : Bytes) (r : Int)
     (hbody : LineKept f (reRead arg).2)
     (h : ecGlob (f + 1) ed loc cmd arg = some (r, ed')) : useqOf ed' = useqOf ed := by
   rw [ecGlob_eq] at h
+  by_cases hdep : ed.xgdep ≥ 7
+  · rw [if_pos hdep] at h; cases h; exact useq_of_bufs rfl
+  rw [if_neg hdep] at h
   split at h
   · cases h
   · rename_i rc b e ed1 hr
